@@ -17,8 +17,17 @@ pub struct SimErr {
 pub const APP_ERR_BASE: u32 = 0x8000_0000;
 
 impl embedded_io::Error for SimErr {
+    /// Different faults report different kinds (a library must not treat any of them as "retry")
     fn kind(&self) -> embedded_io::ErrorKind {
-        embedded_io::ErrorKind::Other
+        use embedded_io::ErrorKind::*;
+        match self.id % 6 {
+            0 => Other,
+            1 => Interrupted,
+            2 => TimedOut,
+            3 => BrokenPipe,
+            4 => WriteZero,
+            _ => OutOfMemory,
+        }
     }
 }
 
